@@ -3,6 +3,7 @@ package main
 
 import (
 	"fmt"
+	"strings"
 	"sync"
 	"time"
 
@@ -30,12 +31,21 @@ type genCfg struct {
 	minRequired int
 	endpoints   bool
 	recursive   bool // every object refers to itself
+	maxOdd      int  // > 0: at most that many hostile / keyword names in the whole document
 }
 
 type gen struct {
 	r   *common.Rng
 	cfg genCfg
 	n   int
+	odd int
+}
+
+func (g *gen) oddAllowed() bool {
+	if g.cfg.maxOdd > 0 && g.odd >= g.cfg.maxOdd {
+		return false
+	}
+	return true
 }
 
 func (g *gen) fresh(prefix string) string { g.n++; return fmt.Sprintf("%s%d", prefix, g.n) }
@@ -44,13 +54,15 @@ func (g *gen) propName(used map[string]bool) string {
 	for tries := 0; tries < 50; tries++ {
 		var n string
 		switch {
-		case g.r.Intn(10) < g.cfg.hostileProp:
+		case g.oddAllowed() && g.r.Intn(10) < g.cfg.hostileProp:
+			g.odd++
 			if g.cfg.format == "xsd" {
 				n = xsdHostileNames[g.r.Intn(len(xsdHostileNames))]
 			} else {
 				n = hostilePropNames[g.r.Intn(len(hostilePropNames))]
 			}
-		case g.r.Intn(10) < g.cfg.keywordProp:
+		case g.oddAllowed() && g.r.Intn(10) < g.cfg.keywordProp:
+			g.odd++
 			if g.r.Bool() {
 				n = keywordPropNames[g.r.Intn(len(keywordPropNames))]
 			} else {
@@ -157,7 +169,8 @@ func (g *gen) object(name string, refs []string, depth int) schema {
 func (g *gen) typeName(used map[string]bool) string {
 	for tries := 0; tries < 30; tries++ {
 		var n string
-		if g.r.Intn(10) < g.cfg.hostileType {
+		if g.oddAllowed() && g.r.Intn(10) < g.cfg.hostileType {
+			g.odd++
 			if g.cfg.format == "xsd" {
 				n = xsdHostileNames[g.r.Intn(len(xsdHostileNames))]
 			} else {
@@ -253,8 +266,15 @@ func genDoc(r *common.Rng, cfg genCfg) doc {
 			if cfg.recursive {
 				s.Props = append(s.Props, prop{Name: "next", T: ptype{Kind: "ref", Ref: n}})
 			}
+			if len(s.Props) == 0 {
+				s.Base = ""
+				s.Props = []prop{{Name: "own", T: ptype{Kind: "prim", Prim: "string"}}}
+			}
 			d.Schemas = append(d.Schemas, s)
-			earlier = append(earlier, n)
+			if !strings.HasPrefix(nameClass(n), "keyword:") {
+				// a schema named like a builtin type / keyword is a finding of its own; nothing refers to it
+				earlier = append(earlier, n)
+			}
 		case "array":
 			e := g.ptype(earlier, 2, n)
 			e.Array = false
@@ -275,6 +295,7 @@ func genDoc(r *common.Rng, cfg genCfg) doc {
 			d.Schemas = append(d.Schemas, schema{Name: n, Kind: "prim", Elem: &ptype{Kind: "prim", Prim: p}})
 		}
 	}
+	objNames = earlier
 	if cfg.endpoints && oas && len(objNames) > 0 {
 		ne := 1 + r.Intn(4)
 		seen := map[string]bool{}
@@ -385,12 +406,12 @@ func docsStream(c *common.Ctx) {
 		thor  int
 	}
 	plans := []plan{
-		{genCfg{format: "swagger", stream: "oas2-valid", endpoints: true}, 40, 1500},
-		{genCfg{format: "swagger", stream: "oas2-required3", minRequired: 3}, 20, 600},
-		{genCfg{format: "swagger", stream: "oas2-hostile-names", hostileProp: 5, hostileType: 3}, 40, 1500},
-		{genCfg{format: "swagger", stream: "oas2-keywords", keywordProp: 5}, 20, 600},
-		{genCfg{format: "xsd", stream: "xsd-valid"}, 25, 800},
-		{genCfg{format: "xsd", stream: "xsd-hostile-names", hostileProp: 4, hostileType: 3, keywordProp: 2}, 20, 600},
+		{genCfg{format: "swagger", stream: "oas2-valid", endpoints: true}, 40, 400},
+		{genCfg{format: "swagger", stream: "oas2-required3", minRequired: 3}, 20, 200},
+		{genCfg{format: "swagger", stream: "oas2-hostile-names", hostileProp: 5, hostileType: 3}, 40, 400},
+		{genCfg{format: "swagger", stream: "oas2-keywords", keywordProp: 5}, 20, 200},
+		{genCfg{format: "xsd", stream: "xsd-valid"}, 25, 250},
+		{genCfg{format: "xsd", stream: "xsd-hostile-names", hostileProp: 4, hostileType: 3, keywordProp: 2}, 20, 200},
 	}
 	// the arr.ai importers (OpenAPI 3, SQL) take seconds per document: they run in their own workers, in
 	// parallel with everything else; their documents are drawn first so that the seed fixes them
@@ -403,7 +424,7 @@ func docsStream(c *common.Ctx) {
 	var arraiDocs []doc
 	na := 1
 	if c.Thorough() {
-		na = 24
+		na = 8
 	}
 	if c.Search {
 		na *= 2
@@ -413,13 +434,13 @@ func docsStream(c *common.Ctx) {
 		if i%2 == 0 {
 			arraiDocs = append(arraiDocs, genDoc(c.Rng, genCfg{format: "openapi3", stream: "oas3-valid", endpoints: true, minRequired: 3 * (i % 2)}))
 		} else {
-			arraiDocs = append(arraiDocs, genDoc(c.Rng, genCfg{format: "openapi3", stream: "oas3-hostile-names", hostileProp: 4, hostileType: 2}))
+			arraiDocs = append(arraiDocs, genDoc(c.Rng, genCfg{format: "openapi3", stream: "oas3-hostile-names", hostileProp: 4, hostileType: 2, maxOdd: 1}))
 		}
 		f := dialects[(int(c.Seed)+i)%3]
 		arraiDocs = append(arraiDocs, genSQL(c.Rng, f, "sql-"+f))
 	}
 	if !c.Thorough() && !c.Search {
-		arraiDocs = append(arraiDocs, genDoc(c.Rng, genCfg{format: "openapi3", stream: "oas3-hostile-names", hostileProp: 4, hostileType: 2}))
+		arraiDocs = append(arraiDocs, genDoc(c.Rng, genCfg{format: "openapi3", stream: "oas3-hostile-names", hostileProp: 4, hostileType: 2, maxOdd: 1}))
 	}
 	arraiResults := make([]ares, len(arraiDocs))
 	var wg sync.WaitGroup
